@@ -1,4 +1,5 @@
 import OH.Driver.Ast
+import OH.Spec.Holds
 /-
 Suite `ev.*`: the evaluator ops.  The implementation part of each line is
 `<CTX dump> <AST dump> | <result>`; the model evaluates the same AST in the same context.
@@ -49,7 +50,49 @@ def verdict (tag : String) (model impl : List String) : String :=
   else if sameOut model impl then s!"ok {tag}"
   else s!"disagree model={joinSp model}"
 
+/-- decode the implementation's `n (s e kind k comment*)*` day ranges -/
+def pRange : P TimeRange := fun ts =>
+  match ts with
+  | s :: e :: k :: ts =>
+    match s.toNat?, e.toNat?, pKind [k] with
+    | some s, some e, some (k, _) =>
+      match pList pTok ts with
+      | some (cs, ts) => some (⟨s, e, k, cs.map dec⟩, ts)
+      | none => none
+    | _, _, _ => none
+  | _ => none
+
+def pRanges (ts : List String) : Option (List TimeRange) :=
+  match pList pRange ts with
+  | some (rs, []) => some rs
+  | _ => none
+
+/-- `c01.sched`: the C01 oracle on the implementation's output, then model agreement -/
+def handleC01 (args impl : List String) : Option String :=
+  match impl with
+  | "parse-error" :: _ => some "ok parse-error"
+  | _ =>
+  match decode impl, args with
+  | some (ctx, e, res), d :: _ =>
+    match d.toInt? with
+    | none => none
+    | some d =>
+      if isPanicTok res then some "ok panic"      -- C04's business
+      else match pRanges res with
+      | none => none
+      | some rs =>
+        let m := runM (match daySchedule ctx e d with | .ok s => .ok (showRanges s) | .error p => .error p)
+        if !(OH.Spec.tilesFrom 0 rs) then some s!"fail tiling model={joinSp m}"
+        else match OH.Spec.c01Mismatch ctx e d rs with
+          | some mm => some s!"fail spec minute={mm} spec={kindTok (OH.Spec.dayState ctx e d mm)} model={joinSp m}"
+          | none =>
+            if sameOut m res then
+              some ("ok " ++ (match res with | ["1", _, _, "c", "0"] => "allclosed" | _ => exprTag e))
+            else s!"disagree model={joinSp m}"
+  | _, _ => none
+
 def handle (op : String) (args impl : List String) : Option String :=
+  if op == "c01.sched" then handleC01 args impl else
   match impl with
   | "parse-error" :: _ => some "ok parse-error"
   | _ =>
